@@ -279,6 +279,11 @@ func (r *Run) crashMember(c Cmd, f Fault, cx *crashCtx) (fired bool, p *Proc) {
 		spec.Env = append(spec.Env, "ERGOSIM_NOTE=kill-at-stdout")
 	} else {
 		faults = []Fault{f}
+		if f.Then != nil {
+			t := *f.Then
+			t.Proc = 0
+			faults = append(faults, t)
+		}
 	}
 	r.W.killAtStdout = f.K == -2
 	amb := r.W.Amb
@@ -403,6 +408,12 @@ func enumerateFaults(evs []*Ev, rng *SplitMix, thorough, errors, torn bool) []Fa
 		}
 		switch {
 		case isLogWrite(e):
+			if e.Len > 2 {
+				// the disk fills up in the middle: part of the data is written,
+				// the retry for the rest fails
+				fs = append(fs, Fault{K: e.K, Act: fmt.Sprintf("short:%d", e.Len/2), Op: e.Op, Note: "short then ENOSPC",
+					Then: &Fault{K: e.K + 1, Act: fmt.Sprintf("err:%d", int(syscall.ENOSPC)), Op: "write"}})
+			}
 			fs = append(fs, Fault{K: e.K, Act: fmt.Sprintf("err:%d", int(syscall.ENOSPC)), Op: e.Op, Note: "ENOSPC"})
 			fs = append(fs, Fault{K: e.K, Act: fmt.Sprintf("err:%d", int(syscall.EIO)), Op: e.Op, Note: "EIO"})
 		case e.Op == "fsync" || e.Op == "fdatasync":
@@ -465,15 +476,59 @@ func runCrashSweep(bin, prop string, seed uint64, thorough bool) *RunReport {
 		sc.Steps = append(sc.Steps, st)
 		r.ExecStep(st)
 	}
+	if rng.Chance(1, 4) {
+		// what a compact/plan killed earlier left behind
+		junk := strings.Repeat("{\"stale\":\"leftover of a killed rewrite\"}\n", 1+rng.Intn(400))
+		st := Step{Disk: &DiskOp{Kind: "tmp_stale", Arg: junk}}
+		sc.Steps = append(sc.Steps, st)
+		r.ExecStep(st)
+	}
 	// violations of the sequential set-up phase belong to other checks
 	r.VL.V = nil
 	r.seenSig = map[string]bool{}
 	// target: a mutating command the model expects to succeed
 	var target Cmd
 	found := false
-	for try := 0; try < 40 && !found; try++ {
+	// pick the kind of command first, so that rare kinds (prune, plan, compact,
+	// sequence chains) get their share of samples
+	wantOp := ""
+	if rng.Chance(1, 2) {
+		wantOp = []string{"prune", "plan", "compact", "sequence", "claim", "claim_id", "set", "new_task"}[rng.Intn(8)]
+	}
+	if wantOp == "prune" {
+		// give prune several targets of both kinds: finish every child of one
+		// epic (so the epic goes too) and one more task
+		var extra []Cmd
+		for _, e := range r.M.Epics() {
+			n := 0
+			for _, t := range r.M.Tasks() {
+				if t.Epic == e.ID && !finished(t.State) && legalMove[t.State]["done"] {
+					extra = append(extra, Cmd{Op: "set", ID: t.ID, State: sp("done"), Agent: "x@h"})
+					n++
+				}
+			}
+			if n > 0 {
+				break
+			}
+		}
+		if len(extra) == 0 {
+			extra = append(extra, Cmd{Op: "new_epic", Title: sp("empty epic")}, Cmd{Op: "new_task", Title: sp("finished"), State: sp("done")})
+		}
+		for i := range extra {
+			st := Step{Cmd: &extra[i]}
+			sc.Steps = append(sc.Steps, st)
+			r.ExecStep(st)
+		}
+		r.VL.V = nil
+		r.seenSig = map[string]bool{}
+		target, found = Cmd{Op: "prune", Yes: true}, true
+	}
+	for try := 0; try < 200 && !found; try++ {
 		st := g.Next(r.M)
 		if st.Cmd == nil || st.Cmd.IsRead() || st.Cmd.Op == "init" {
+			continue
+		}
+		if wantOp != "" && st.Cmd.Op != wantOp && try < 150 {
 			continue
 		}
 		if prop == "C04" && !multiEvent(*st.Cmd, r.M) {
